@@ -6,11 +6,41 @@
    non-control, non-blank, non-separator characters without "--" and "/*" that do not end in '-', and whose
    separator items are the 13 separator characters of the tokenizer; every layout that puts at each of the
    n+1 boundaries a gap = list of items from
-     space | tab | CR LF | LF | "--" c (LF | CR LF)  with c free of CR, LF
-     | "/*" body "*/"  with body a balanced sequence of characters (other than '*', '/', CR, LF), LF, CR LF,
-       nested "/*" and "*/", nesting depth below 2^31 - 1 (nest_lvl is an i32);
+     space | tab | CR LF | LF | lone CR (a CR with no LF behind it)
+     | "--" c (LF | CR LF)   with c free of CR, LF
+     | "--" c "--"           (X.680 12.6.3) with c free of CR, LF, "--", not ending in '-', provided the rest
+                             of its line -- up to a LF / CR LF / "--" c LF in the SAME gap -- holds only space,
+                             tab, lone CR, further "--" c "--" and block comments without a line end
+     | "/*" body "*/"        with body a balanced sequence of content characters, LF, CR LF, nested "/*" and
+                             "*/", nesting depth below 2^31 - 1 (nest_lvl is an i32).  Content is EVERY character
+                             except LF -- '*', '/' and CR included; the only condition is that a content '*' is
+                             not directly followed by '/' and a content '/' not directly followed by '*'
+                             (then they are not content but the delimiters "*/" and "/*", read from left to
+                             right: "/*/" opens and has content '/', "/**/" is the empty comment, "**/" is
+                             content '*' and the closing).  LexProofs.body_of / render_body_of / body_of_ok:
+                             every text that is balanced in this reading has such a body, so no comment text is
+                             excluded;
    two adjacent text items need a non-empty gap (X.680 12.1); both cargo profiles (forall m).
-   Outside: '*' and '/' as comment content, "--" c "--" comments, lone CR (covered by the differential tie only).
+   Position rule (adv1, pos_at): LF starts a new line; every other character, a lone CR included, advances
+   the column by one.  This is what the crate reports (str::lines does not split at a lone CR):
+   "a\rb" gives a at (1,1), b at (1,3).
+   The class of the first version (no '*' '/' CR content, no "--" c "--", no lone CR) is included:
+   LexProofs.lex_safe_old_sub.
+
+   Outside, because the crate is NOT layout-invariant there (witnesses below, all deviations from X.680 clause 12):
+     * "--" c "--" followed on the same line by a token or by the beginning of a multi-line block comment:
+       the crate does not end a line comment at the second "--" (X.680 12.6.3 does), it skips the whole rest
+       of the line, so `a -- c -- b` loses b (C13_refuted_dashdash_closes_line_comment; known finding F13-1, class
+       dashdash_does_not_close_line_comment in checks/C13.py).  For the same
+       reason a GLine item "--" c LF whose c contains "--" is in the class only in the crate's reading; the
+       layouts with LexProofs.x680_lines gs = true are those where the printer's comments are X.680's comments.
+     * a lone CR as the line end of a "--" comment: `a -- c CR b LF` loses b (X.680 12.1.6: CR is a newline
+       character) (C13_refuted_cr_ends_line_comment; known finding F13-2, class
+       lone_cr_does_not_end_line_comment).  Hence no CR inside line-comment content.
+     * VT and FF (white-space in X.680 12.1.6) are dropped without separating: `a VT b` is the one token ab
+       (C13_refuted_vt_ff_white_space); they are not among the separators of the property's quantifier.
+   Also outside (a matter of the printer's shape, not of the crate): a "--" c "--" comment whose line is
+   ended by the end of the text instead of a LF.
    History: before repair 58b7ab0 of /repo a block comment did not push the pending token, so
    SEQUENCE/* c */OF gave the single token SEQUENCEOF (class block_comment_only_gap); the model follows the
    repaired code and the theorems hold for every lex_safe layout. *)
@@ -47,8 +77,8 @@ Example C13_fixed_block_comment_gap :
   tokenize release_mode (render w_ts w_gs) = Ok [Text 1 1 [83; 69; 81; 85; 69; 78; 67; 69]; Text 1 16 [79; 70]].
 Proof. repeat split; vm_compute; reflexivity. Qed.
 
-(* non-vacuity: a layout with all seven kinds of gap items satisfies the hypotheses, and the
-   conclusion says something about it *)
+(* non-vacuity: a layout with the seven kinds of gap items of the first version satisfies the
+   hypotheses, and the conclusion says something about it *)
 Definition ex_ts : list ptoken :=
   [PText [65]; PSep 58; PSep 58; PSep 61; PText [83; 69; 81]; PText [79; 70]; PText [45; 53]; PSep 125].
 Definition ex_gs : list gap :=
@@ -70,8 +100,88 @@ Proof.
   repeat split; vm_compute; reflexivity.
 Qed.
 
+(* non-vacuity for the items added with the second version of the theorems:
+     /* a * b / c **/x/*/ x */y -- c -- ----/***/ CR -- d CR LF
+     , CR z/* CR ** /*/ */* LF
+     //**/**/ CR CR w--- x-- HT LF
+   '*' and '/' as comment content (also directly behind "/*", in front of "*/" and around nested comments),
+   "--" c "--" comments with a comment-only rest of the line, lone CRs in gaps and in a comment *)
+Definition n_ts : list ptoken := [PText [120]; PText [121]; PSep 44; PText [122]; PText [119]].
+Definition n_gs : list gap :=
+  [ [GBlock [CChar 32; CChar 97; CChar 32; CChar 42; CChar 32; CChar 98; CChar 32; CChar 47; CChar 32;
+             CChar 99; CChar 32; CChar 42]];
+    [GBlock [CChar 47; CChar 32; CChar 120; CChar 32]];
+    [GSpace; GLineD [32; 99; 32]; GSpace; GLineD []; GBlock [CChar 42]; GCr; GLine [32; 100] true];
+    [GCr];
+    [GBlock [CChar 13; CChar 42; CChar 42; CChar 32; COpen; CChar 47; CChar 32; CClose; CChar 42; CNl;
+             CChar 47; COpen; CClose; CChar 42]; GCr; GCr];
+    [GLineD [45; 32; 120]; GTab; GLf] ].
+
+Example C13_nonvacuous_star_slash_dashdash_cr :
+  lex_safe n_ts n_gs /\ x680_lines n_gs = true /\
+  render n_ts n_gs =
+    [47; 42; 32; 97; 32; 42; 32; 98; 32; 47; 32; 99; 32; 42; 42; 47; 120;
+     47; 42; 47; 32; 120; 32; 42; 47; 121; 32; 45; 45; 32; 99; 32; 45; 45;
+     32; 45; 45; 45; 45; 47; 42; 42; 42; 47; 13; 45; 45; 32; 100; 13; 10;
+     44; 13; 122; 47; 42; 13; 42; 42; 32; 47; 42; 47; 32; 42; 47; 42; 10;
+     47; 47; 42; 42; 47; 42; 42; 47; 13; 13; 119; 45; 45; 45; 32; 120; 45; 45; 9; 10] /\
+  tokenize dev_mode (render n_ts n_gs)
+    = Ok [Text 1 17 [120]; Text 1 26 [121]; Separator 2 1 44; Text 2 3 [122]; Text 3 11 [119]] /\
+  tokenize release_mode (render n_ts n_gs) = Ok (expect n_ts n_gs) /\
+  map loc (expect n_ts n_gs) = [(1, 17); (1, 26); (2, 1); (2, 3); (3, 11)].
+Proof. repeat split; vm_compute; reflexivity. Qed.
+
+(* ---- where the crate is not layout-invariant (deviations from X.680 clause 12) ---- *)
+
+(* a -- c -- b LF : by X.680 12.6.3 the comment ends at the second "--" and b is a token; the crate skips
+   the rest of the line.  As a layout: a, gap [space; "--" c "--"; space], b, gap [LF] -- not lex_safe, and
+   the theorems cannot be extended to it: the printed item b is lost *)
+Definition r_ts : list ptoken := [PText [97]; PText [98]].
+Definition r_gs : list gap := [[]; [GSpace; GLineD [32; 99; 32]; GSpace]; [GLf]].
+
+Example C13_refuted_dashdash_closes_line_comment :
+  render r_ts r_gs = [97; 32; 45; 45; 32; 99; 32; 45; 45; 32; 98; 10] /\
+  lex_safeb r_ts r_gs = false /\
+  tokenize dev_mode (render r_ts r_gs) = Ok [Text 1 1 [97]] /\
+  tokenize release_mode (render r_ts r_gs) = Ok [Text 1 1 [97]] /\
+  map strip [Text 1 1 [97]] <> r_ts /\
+  (* the same items with the line ended right behind the comment: both tokens *)
+  lex_safe r_ts [[]; [GSpace; GLineD [32; 99; 32]; GLf]; [GLf]] /\
+  tokenize dev_mode (render r_ts [[]; [GSpace; GLineD [32; 99; 32]; GLf]; [GLf]])
+    = Ok [Text 1 1 [97]; Text 2 1 [98]].
+Proof. repeat split; try (vm_compute; reflexivity). vm_compute. discriminate. Qed.
+
+(* a -- c CR b LF : X.680 12.1.6 lists CR among the newline characters that end a "--" comment (12.6.3);
+   str::lines does not split there and the crate skips b as well *)
+Example C13_refuted_cr_ends_line_comment :
+  tokenize dev_mode [97; 32; 45; 45; 32; 99; 13; 98; 10] = Ok [Text 1 1 [97]] /\
+  tokenize release_mode [97; 32; 45; 45; 32; 99; 13; 98; 10] = Ok [Text 1 1 [97]] /\
+  (* with CR LF instead: both tokens *)
+  tokenize dev_mode [97; 32; 45; 45; 32; 99; 13; 10; 98; 10] = Ok [Text 1 1 [97]; Text 2 1 [98]].
+Proof. repeat split; vm_compute; reflexivity. Qed.
+
+(* a VT b FF c : VT (11) and FF (12) are white-space in X.680 12.1.6; the crate drops them ("Ignoring
+   unexpected character") without ending the pending token: one token abc.  (Not among the separators the
+   property quantifies over.) *)
+Example C13_refuted_vt_ff_white_space :
+  tokenize dev_mode [97; 11; 98; 12; 99] = Ok [Text 1 1 [97; 98; 99]] /\
+  tokenize release_mode [97; 11; 98; 12; 99] = Ok [Text 1 1 [97; 98; 99]].
+Proof. repeat split; vm_compute; reflexivity. Qed.
+
+(* a lone CR is a blank that advances the column (this IS inside the theorems: item GCr) *)
+Example C13_lone_cr_is_a_blank :
+  lex_safe r_ts [[]; [GCr]; []] /\
+  tokenize dev_mode (render r_ts [[]; [GCr]; []]) = Ok [Text 1 1 [97]; Text 1 3 [98]].
+Proof. repeat split; vm_compute; reflexivity. Qed.
+
 Print Assumptions C13_tokenize.
 Print Assumptions C13_layout_invariant.
 Print Assumptions C13_locations.
 Print Assumptions C13_positions_intrinsic.
 Print Assumptions C13_fixed_block_comment_gap.
+Print Assumptions C13_nonvacuous.
+Print Assumptions C13_nonvacuous_star_slash_dashdash_cr.
+Print Assumptions C13_refuted_dashdash_closes_line_comment.
+Print Assumptions C13_refuted_cr_ends_line_comment.
+Print Assumptions C13_refuted_vt_ff_white_space.
+Print Assumptions C13_lone_cr_is_a_blank.
